@@ -33,6 +33,19 @@ impl Out {
         }
     }
 }
+impl Out {
+    /// kmer!(lit, storage)
+    pub fn kmer_s<const K: usize, S: bio_seq::kmer::KmerStorage>(&mut self, lit: &str, got: Kmer<Dna, K, S>)
+    where Kmer<Dna, K, S>: core::fmt::Display + PartialEq + Hash + PartialEq<SeqSlice<Dna>> {
+        self.n += 1;
+        match Kmer::<Dna, K, S>::from_str(lit) {
+            Ok(want) => if !(got == want && got.to_string() == lit && h(&got) == h(&want) && got.len() == K && got == Seq::<Dna>::try_from(lit).unwrap()[..]) && self.fails.len() < 20 {
+                self.fails.push(format!("kmer literal {:?} on {}: macro gives {} runtime gives {}", lit, core::any::type_name::<S>(), got, want));
+            },
+            Err(e) => if self.fails.len() < 20 { self.fails.push(format!("kmer literal {:?}: runtime rejects {:?}", lit, e)); },
+        }
+    }
+}
 fn main() {
     let mut o = Out { n: 0, fails: vec![] };
     gen::run(&mut o);
